@@ -29,7 +29,7 @@ const char *const KIND_NAMES[K_NKINDS] = {"trunc", "tear", "iothrow", "word", "p
 struct DumpSpec {
     int stack = -1;
     uint64_t dseed = 0;
-    int getbuf = 64, putbuf = 64, exc = 0, pre = 0, post = 0;
+    int getbuf = 64, putbuf = 64, exc = 0, pre = 0, post = 0, seek = 0;
     std::vector<size_t> ext;
 };
 
@@ -50,7 +50,7 @@ std::string case_text(const DumpSpec &d, const Case &c)
     std::ostringstream o;
     o << "# covfie-sim replay v1\nworld iofault\n";
     o << "dump stack=" << g_stacks[d.stack].id << " dseed=" << d.dseed << " getbuf=" << d.getbuf << " putbuf=" << d.putbuf << " exc=" << d.exc
-      << " pre=" << d.pre << " post=" << d.post << " ext=";
+      << " pre=" << d.pre << " post=" << d.post << " seek=" << d.seek << " ext=";
     for (size_t i = 0; i < d.ext.size(); ++i)
         o << (i ? "x" : "") << d.ext[i];
     if (d.ext.empty())
@@ -162,13 +162,13 @@ struct Outcome {
     size_t refills = 0;
 };
 
-Outcome try_load(int reader, const Bytes &data, size_t start, size_t limit, int getbuf, int exc, long throw_refill, size_t budget)
+Outcome try_load(int reader, const Bytes &data, size_t start, size_t limit, int getbuf, int exc, long throw_refill, size_t budget, bool seekable = false)
 {
     Outcome out;
     const SlotOps &o = ops_of(reader);
     alloc::begin_run();
     void *mem = raw_alloc(o);
-    SimIStreamBuf sb(data, start, limit, (size_t)getbuf, throw_refill);
+    SimIStreamBuf sb(data, start, limit, (size_t)getbuf, throw_refill, seekable);
     sb.refill_budget = budget;
     std::istream is(&sb);
     if (exc == 1)
@@ -261,7 +261,7 @@ std::string run_case(Ctx &cx, const Prepared &p, const Case &c, std::string &det
     if (c.reader >= 0)
         reader = c.reader; // a different (compatible or incompatible) field type does the loading
     size_t budget = 20 * (p.file.size() / (size_t)std::max(p.d.getbuf, 1) + 8);
-    Outcome out = try_load(reader, *data, p.start, limit, p.d.getbuf, p.d.exc, thr, budget);
+    Outcome out = try_load(reader, *data, p.start, limit, p.d.getbuf, p.d.exc, thr, budget, p.d.seek != 0);
     ++cx.cases;
     cx.cnt.inc(std::string("cases.") + KIND_NAMES[c.kind]);
     if (c.kind != K_PAIR && c.reader >= 0)
@@ -430,6 +430,7 @@ DumpSpec gen_dump(uint64_t seed, int stack, int di, bool small)
     d.exc = (int)r.below(3);
     d.pre = r.chance(0.3) ? (int)r.range(1, 9) : 0;
     d.post = r.chance(0.5) ? (int)r.range(1, 24) : 0;
+    d.seek = r.chance(0.5) ? 1 : 0;
     d.ext = gen_ext(r, g_stacks[stack], small);
     return d;
 }
@@ -545,6 +546,8 @@ int main(int argc, char **argv)
                         d.pre = std::atoi(v.c_str());
                     else if (k == "post")
                         d.post = std::atoi(v.c_str());
+                    else if (k == "seek")
+                        d.seek = std::atoi(v.c_str());
                     else if (k == "ext" && v != "-") {
                         std::stringstream ss(v);
                         std::string e;
